@@ -90,7 +90,8 @@ pub enum Expr {
     /// `a.k`
     Field(Box<Expr>, String),
     Call(Box<Expr>, Vec<Expr>, CallArgsKind),
-    MethodCall(Box<Expr>, String, Vec<Expr>, CallArgsKind),
+    /// `o:m<<T>>(args)`: the optional explicit type instantiation is the last field
+    MethodCall(Box<Expr>, String, Vec<Expr>, CallArgsKind, Option<Vec<Type>>),
     Binary(BinOp, Box<Expr>, Box<Expr>),
     Unary(UnOp, Box<Expr>),
     Paren(Box<Expr>),
